@@ -68,7 +68,7 @@ def rcmEvent (l : Line) : Option ((RCM → Bool) × List Label) :=
     let k ← l.nat? "k"; let ok ← l.nat? "ok"
     pure (all, [.add k (ok == 1)])
   | some "ac.call" => some (all, [.acCall])
-  | some "ac.ok" => some (all, [.acOk])
+  | some "ac.ok" => some (all, [.acRetOk])
   | some "ac.rej" => some (all, [.acRejectEarly, .acRejectLate])
   | some "run.call" => some (all, [.runCall])
   | some "run.rej" => some (all, [.runRejected])
@@ -123,7 +123,7 @@ def showRM (s : RM) : String :=
   s!"[run={s.running} pc={repr s.runPc} sp={s.spawned} col={s.collected} pcs={String.join (s.pcs.map showRPc)} errs={s.errs} canc={s.cancelled}]"
 
 def showRCM (s : RCM) : String :=
-  s!"[opc={s.opc.rank} run={s.running} closing={s.closing} closed={s.closed} stopped={s.stopped} cl={s.cl0}/{s.cl1}/{s.cl2} ac={s.ac0}/{s.ac1} cp={String.join (s.cpcs.map showCPc)} nc={s.nclosers} csp={s.cspawned} ccol={s.ccollected} cfs={s.cfs} f={showFPc s.fpc} now={s.now} ret={s.retErr} in={showRM s.inner}]"
+  s!"[opc={s.opc.rank} run={s.running} closing={s.closing} closed={s.closed} stopped={s.stopped} cl={s.cl0}/{s.cl1}/{s.cl2} ac={s.ac0}/{s.ac1}/{s.ac2} cp={String.join (s.cpcs.map showCPc)} nc={s.nclosers} csp={s.cspawned} ccol={s.ccollected} cfs={s.cfs} f={showFPc s.fpc} now={s.now} ret={s.retErr} in={showRM s.inner}]"
 
 def summary (xs : List String) : String :=
   " | ".intercalate (xs.take 3)
